@@ -1083,6 +1083,8 @@ func (c *Ctx) cipherObfuscateB() {
 type eexecOutcomeB struct {
 	ret       sv
 	begun     int
+	begunOn   string // the scanner on which decryption was started
+	begunWith sv     // the argument of that call (the number of lead bytes asked for)
 	ran       int
 	runOn     string // the scanner handed to the nested run
 	dictAtRun string
@@ -1162,6 +1164,12 @@ func (c *Ctx) eexecCellB(beginOK bool, result string, delta int) eexecOutcomeB {
 			return symV("otherErr"), true
 		case sc != nil && begins(sc, 0):
 			o.begun++
+			if len(args) > 0 {
+				o.begunOn = args[0].s
+			}
+			if len(args) > 1 {
+				o.begunWith = args[1]
+			}
 			if !beginOK {
 				return symV("beginErr"), true
 			}
@@ -1252,7 +1260,7 @@ func (c *Ctx) eexecOperatorTableB(rule string, c03 bool) {
 	// what the section runs with
 	o := c.eexecCellB(true, "nil", 0)
 	c.check(o.why == "" && o.dictAtRun == "[Dict:d0 Dict:d1 Dict:systemdict]", rule, fname, "systemdict pushed on the dictionary stack", f.Pos(), "dictionary stack during the section: "+o.dictAtRun, "eexec runs the section with the dictionary stack "+o.dictAtRun+", expected systemdict on top of the previous stack "+o.why)
-	c.check(o.why == "" && o.begun == 1 && o.runOn == "scanner1", rule, fname, "the section is read from the decrypting scanner on top of the scanner stack", f.Pos(), "scanner handed to the nested run", fmt.Sprintf("decryption is started %d time(s) and the section is run on %q, expected the scanner on top of the scanner stack %s", o.begun, o.runOn, o.why))
+	c.check(o.why == "" && o.begun == 1 && o.begunOn == "scanner1" && o.runOn == "scanner1", rule, fname, "the section is read from the decrypting scanner on top of the scanner stack", f.Pos(), "scanner handed to the nested run", fmt.Sprintf("decryption is started %d time(s) on %q and the section is run on %q, expected the scanner on top of the scanner stack %s", o.begun, o.begunOn, o.runOn, o.why))
 	// errors are errors
 	oe := c.eexecCellB(true, "other", 1)
 	badErr := ""
@@ -1934,6 +1942,14 @@ func (c *Ctx) subrsTableB() {
 						v := *op
 						if v == nil {
 							continue
+						}
+						if p, ok := v.(*ssa.Parameter); ok && r.H != nil && p.Parent() == r.fn {
+							// the loop lives in a helper: what it takes from outside arrives as a parameter
+							if _, done := ev.bind[v]; !done {
+								if x, ok := byType(v); ok {
+									ev.bind[v] = x
+								}
+							}
 						}
 						if oi, ok := v.(ssa.Instruction); ok && r.H != nil && oi.Parent() == r.fn && !inRegion(oi.Block()) {
 							if _, done := ev.bind[v]; !done {
